@@ -42,7 +42,9 @@ def run(ctx):
     apps = [cf.nodes[i] for i in body if any(call_name(c) == "append" and isinstance(c.func.value, ast.Subscript) for c in cf.nodes[i].calls())]
     need(len(apps) == 1, "grouping append not found once")
     ac = [c for c in apps[0].calls() if call_name(c) == "append"][0]
-    keyv = unparse(ac.func.value.slice)
+    key_e = ac.func.value.slice
+    by_id = isinstance(key_e, ast.Attribute) and key_e.attr == "node_id"
+    keyv = unparse(key_e.value) if by_id else unparse(key_e)
     gmap = unparse(ac.func.value.value)
     lookups = [cf.nodes[i] for i in body if isinstance(cf.nodes[i].stmt, ast.Assign) and unparse(cf.nodes[i].stmt.targets[0]) == keyv]
     ok = norm(ac.args[0]) == pv and len(lookups) == 2
@@ -58,6 +60,9 @@ def run(ctx):
             ok = ok and [norm(a) for a in c.args] == ["consumer_group"] and ("consumer_group is None", False) in facts[n.id]
     r.check(ok, "%s#grouping-key" % sba.qname, "a payload is grouped under a broker looked up with something other than its own "
             "topic/partition (or the group)", where(sba, ac), "payload sent to a broker that does not lead its partition")
+    r.check(by_id, "%s#grouped-by-node-id" % sba.qname, "payloads are grouped under `%s`, not under the broker's node id" % norm(key_e), where(sba, ac),
+            "the lookup for a later payload reloads the metadata and learns a new address for a broker an earlier payload already "
+            "resolved: the same node appears under two keys and gets two requests")
     r.check(("%s is None" % keyv, False) in facts[apps[0].id], "%s#no-leader-raises" % sba.qname,
             "a payload without a leader/coordinator is grouped instead of raising", where(sba, ac), "request sent to broker None / KeyError later")
     sends = [n for n in cf.nodes if any(call_name(c) == "_make_request_to_broker" for c in n.calls())]
@@ -77,7 +82,7 @@ def run(ctx):
     bvar, idvar, reqvar = [norm(a) for a in sc.args[:3]]
     ok = sends[0].id in sbody
     b = assigned(bvar)
-    ok = ok and len(b) == 1 and norm(b[0].value) == "self._get_brokerclient(%s.node_id)" % kv
+    ok = ok and len(b) == 1 and norm(b[0].value) == ("self._get_brokerclient(%s)" % kv if by_id else "self._get_brokerclient(%s.node_id)" % kv)
     i = assigned(idvar)
     ok = ok and len(i) == 1 and norm(i[0].value) == "self._next_id()"
     q = assigned(reqvar)
@@ -251,14 +256,19 @@ def run(ctx):
 
 
 MUTANTS = [
+    {"id": "grouped-by-metadata-tuple", "file": "client.py",
+     "edits": [("client.py", "            payloads_by_broker[leader.node_id].append(payload)", "            payloads_by_broker[leader].append(payload)"),
+               ("client.py", "        for node_id, payloads in payloads_by_broker.items():\n            broker = self._get_brokerclient(node_id)",
+                "        for broker_meta, payloads in payloads_by_broker.items():\n            broker = self._get_brokerclient(broker_meta.node_id)")],
+     "expect": "C07.R1", "note": "finding F21"},
     {"id": "leader-of-first-payload", "file": "client.py", "old": "leader = yield self._get_leader_for_partition(payload.topic, payload.partition)",
      "new": "leader = yield self._get_leader_for_partition(payloads[0].topic, payloads[0].partition)", "expect": "C07.R1"},
     {"id": "no-leader-grouped", "file": "client.py",
      "old": "                if leader is None:\n                    raise LeaderUnavailableError(\n                        \"Leader not available for topic %s partition %s\" % (payload.topic, payload.partition)\n                    )\n",
      "new": "", "expect": "C07.R1"},
-    {"id": "all-payloads-to-each-broker", "file": "client.py", "old": "        for broker_meta, payloads in payloads_by_broker.items():\n            broker",
-     "new": "        for broker_meta, _p in payloads_by_broker.items():\n            broker", "expect": ["C07.R2", "C07.R3"], "accept_analysis_error": True},
-    {"id": "wrong-broker-client", "file": "client.py", "old": "            broker = self._get_brokerclient(broker_meta.node_id)\n            requestId = self._next_id()",
+    {"id": "all-payloads-to-each-broker", "file": "client.py", "old": "        for node_id, payloads in payloads_by_broker.items():\n            broker",
+     "new": "        for node_id, _p in payloads_by_broker.items():\n            broker", "expect": ["C07.R2", "C07.R3"], "accept_analysis_error": True},
+    {"id": "wrong-broker-client", "file": "client.py", "old": "            broker = self._get_brokerclient(node_id)\n            requestId = self._next_id()",
      "new": "            broker = self._get_brokerclient(next(iter(self._brokers)))\n            requestId = self._next_id()", "expect": "C07.R2"},
     {"id": "payloads-list-before-send-only-on-success", "file": "client.py", "old": "            inFlight.append(d)\n            payloadsList.append(payloads)",
      "new": "            inFlight.append(d)\n            if expectResponse:\n                payloadsList.append(payloads)", "expect": "C07.R3"},
